@@ -83,7 +83,7 @@ def main(tier, replay=None):
     camp.run(mapgen.header("Int", "Int", BIG, [7, 8, 9]),             # key magnitudes beyond 32 bits, multiples of 2^32 apart
              [mapgen.random_history(rng, "Table", len(BIG), 3, rng.choice([40, 120, 300]) if quick else rng.choice([100, 400, 1500]),
                                     init_pairs=rng.choice([0, 0, 3])) for _ in range(nexec // 3)], "random/Int-magnitudes", variant="IntBig")
-    for name, vtype in (("Int", "Int"), ("String", "Int"), ("Probe", "Probe"), ("Int", "Probe"), ("Int", "Odd12"), ("Odd12", "Int")):
+    for name, vtype in (("Int", "Int"), ("String", "Int"), ("Probe", "Probe"), ("Int", "Probe"), ("Int", "Odd12"), ("Odd12", "Int"), ("Pair16", "Int")):
         # (the last three: key and value types of different sizes - slot layout, copy and assign must use each one's own size)
         nk = rng.choice([12, 16, 24])
         mod = rng.choice([55, 1265, 1265 * 53])
@@ -95,6 +95,10 @@ def main(tier, replay=None):
             ints = sorted(set(ints[: nk - 6]) | {M - 1 + M * rng.randrange(0, 30) for _ in range(4)} | {M * rng.randrange(1, 30) for _ in range(2)})
         if name == "String":
             keys = sorted(mapgen.colliding_strings(harness, wd, ints, mod if mod < 70000 else 1265, rng))  # token order = byte order
+        elif name == "Pair16":
+            # a plain type without Cmp / Hash instances, two words wide (default byte-wise comparison and hash): values below 1024
+            # keep byte order = numeric order (the histories also put these keys into Trees); many agree in their first word
+            keys = sorted({4 * b + j for b in rng.sample(range(256), nk // 3 + 1) for j in rng.sample(range(4), 3)})[:nk]
         else:
             keys = ints
         same_kind = name == vtype and name in ("Int", "Probe")
@@ -124,6 +128,11 @@ def main(tier, replay=None):
             L.append("snap 1")
     L += ["snap 1", "resize 1 %d" % (2 * big), "snap 1", "resize 1 0", "snap 1", "set 1 %d 2" % order[0], "snap 1", "snap 2"]
     camp.run(["light 6"] + mapgen.header("Int", "Int", ks, [1, 2, 3]), [L], "large/Int", sample=False)
+
+    # sizes: maps built at once, room reserved first or grown step by step; the thorough tier goes beyond the last entry of the library's
+    # table of sizes (8 800 019 slots: about 7.9 million bindings), where the slot count is computed instead of looked up
+    sizes = [(20000, 0), (300000, 1)] if quick else [(20000, 0), (300000, 1), (8000000, 1), (8800020, 1), (9000000, 0)]
+    camp.run(mapgen.header("Int", "Int", [1, 2], [1]), [["reset", "scale T %d %d" % nr] for nr in sizes], "scale", sample=False)
 
     chk.cov["rule"] = ("an execution = one history of public Table calls replayed on the real library; distinct = "
                        "different operation sequence or key type; every event carries the full projection "
